@@ -11,7 +11,7 @@ package spnego
 // ---- property C03: every verification API reports success only for a token containing an AP-REQ that
 // service.VerifyAPREQ accepted (ghost apreqAccepted), with status COMPLETE (1<<19), and the context it hands out
 // carries exactly the credentials VerifyAPREQ returned (ghost apreqCreds).
-//@ define ctx_is_accepted(c) := ctxhasval(c) && tagof(ctxval(c)) == typeid("*credentials.Credentials") && iref(ctxval(c)) == apreqCreds
+//@ define ctx_is_accepted(c) := ctxhasval(c) && ctxkeystr(c, "github.com/jcmturner/gokrb5/v8/ctxCredentials") && tagof(ctxval(c)) == typeid("*credentials.Credentials") && iref(ctxval(c)) == apreqCreds
 
 //@ func (*spnego.KRB5Token).Verify(m) (ok, st)
 //@   modifies m.context, m.APReq.Ticket.DecryptedEncPart, m.APReq.Authenticator
@@ -22,3 +22,57 @@ package spnego
 //@ func (*spnego.KRB5Token).Context(m) (r)
 //@   pure
 //@   ensures r == m.context
+
+// mech token of a negotiation token after a successful verification: a KRB5Token whose context is the accepted one
+//@ define mech_accepted(mt) := tagof(mt) == typeid("*spnego.KRB5Token") && ctx_is_accepted(unbox(mt, "*spnego.KRB5Token").context)
+
+//@ func (*spnego.NegTokenInit).Verify(n) (ok, st)
+//@   ensures ok ==> apreqAccepted && st.Code == 524288 && mech_accepted(n.mechToken)
+//@   ensures !ok ==> st.Code != 524288
+//@   loop 1 invariant -1 <= rangeindex && rangeindex < len(n.MechTypes)
+
+//@ func (*spnego.NegTokenResp).Verify(n) (ok, st)
+//@   ensures ok ==> apreqAccepted && st.Code == 524288 && mech_accepted(n.mechToken)
+//@   ensures !ok ==> st.Code != 524288
+
+//@ func (*spnego.SPNEGOToken).Verify(s) (ok, st)
+//@   ensures ok ==> apreqAccepted && st.Code == 524288 && ctx_is_accepted(s.context)
+//@   ensures !ok ==> st.Code != 524288
+
+//@ func (*spnego.SPNEGO).AcceptSecContext(s, ct) (ok, ctx, st)
+//@   ensures ok ==> apreqAccepted && st.Code == 524288 && ctx_is_accepted(ctx)
+//@   ensures !ok ==> st.Code != 524288
+
+// ---- the HTTP wrapper: the wrapped handler runs only for a request whose AP-REQ was accepted, with the
+// credentials VerifyAPREQ returned, or for a request belonging to an established session.
+//@ ghost sessionOK bool
+//@ func spnego.getSessionCredentials(spnego, r) (creds, err)
+//@   sets sessionOK := err == nil
+//@ func (net/http.Handler).ServeHTTP(h, w, r)
+//@   requires apreqAccepted || sessionOK
+//@   sets served := true
+//@ func github.com/jcmturner/goidentity/v6.AddToHTTPRequestContext(id, r) (out)
+//@   pure
+//@   trusted dependency: returns a copy of the request carrying the identity
+//@   requires sessionOK || (tagof(id) == typeid("*credentials.Credentials") && iref(id) == apreqCreds)
+
+// Every other request is refused: the closure either serves the wrapped handler or answers 401 with a
+// WWW-Authenticate header (500 when the application's session store fails). Ghost record of the response:
+//@ ghost served bool
+//@ ghost respStatus int
+//@ ghost respAuthSet bool
+//@ func net/http.Error(w, msg, code)
+//@   trusted stdlib
+//@   pure
+//@   sets respStatus := code
+//@ func (net/http.Header).Set(h, key, value)
+//@   trusted stdlib
+//@   pure
+//@   sets respAuthSet := respAuthSet || key == "WWW-Authenticate"
+//@ func spnego.SPNEGOKRB5Authenticate$1(w, r, inner, kt, settings)
+//@   requires !served && respStatus == 0 && !respAuthSet
+//@   ensures served || (respStatus == 401 && respAuthSet) || respStatus == 500
+//@   ensures served ==> respStatus == 0
+//@ func spnego.getAuthorizationNegotiationHeaderAsSPNEGOToken(spnego, r, w) (st, err)
+//@   ensures st == nil || err != nil ==> respStatus == 401 && respAuthSet
+//@   ensures st != nil && err == nil ==> respStatus == old(respStatus) && respAuthSet == old(respAuthSet)
